@@ -154,9 +154,9 @@ func checkSettleN(r *fw.R, d []float64, rule canvas.FillRule, eps, delta, eta fl
 					best = math.Min(best, v.Dist(u))
 				}
 			}
-			if best > 2*eps+1e-12 {
+			if !(best <= 2*eps+1e-12) {
 				// a vertex of the second result that is no vertex of the first must at least lie on the first's boundary
-				if oracle.Dist(out, v, true) > 2*eps+1e-12 {
+				if !(oracle.Dist(out, v, true) <= 2*eps+1e-12) {
 					r.Violate("idempotence-vertices", fmt.Sprintf("vertex %v of second result is %.3g from the first result; first=%s second=%s", v, best, oracle.Fmt(res.Data()), oracle.Fmt(res2.Data())))
 					return
 				}
